@@ -1313,9 +1313,18 @@ static void union_initializer(Token **rest, Token *tok, Initializer *init) {
   // and that initializes the first union member by default.
   // You can initialize other member using a designated initializer.
   if (equal(tok, "{") && equal(tok->next, ".")) {
-    Member *mem = struct_designator(&tok, tok->next, init->ty);
-    init->mem = mem;
-    designation(&tok, tok, init->children[mem->idx]);
+    // Each further designator names a member of the union anew and
+    // the last one wins: `{.a = 1, .b = 2}` (C11 6.7.9p17, p19).
+    tok = tok->next;
+    for (;;) {
+      Member *mem = struct_designator(&tok, tok, init->ty);
+      init->mem = mem;
+      designation(&tok, tok, init->children[mem->idx]);
+
+      if (!equal(tok, ",") || !equal(tok->next, "."))
+        break;
+      tok = tok->next;
+    }
     consume(&tok, tok, ",");
     *rest = skip(tok, "}");
     return;
